@@ -44,6 +44,7 @@ def tasks(tier, seed):
     npre = 4 if tier == "quick" else 16
     t += [{"sub": "prefixed", "shard": i, "nshard": npre} for i in range(npre)]
     t += [{"sub": "compound", "nit": nit, "shard": i} for i, nit in enumerate(("Fraction", "Fraction", "float", "Decimal"))]
+    t += [{"sub": "generated", "shard": i} for i in range(2)]
     return t
 
 
@@ -375,11 +376,55 @@ def run_compound(task, tier, seed, col):
                seed=seed * 131 + task["shard"])
 
 
+# ------------------------------------------------------------------------------------- generated definition files
+
+def case_generated(case, col=None):
+    import logging
+
+    import pint
+
+    from ..gen import regmodel
+
+    model, nit = case["model"], case["nit"]
+    logging.disable(logging.CRITICAL)
+    try:
+        lines, _ = regmodel.render(model)
+        ureg = pint.UnitRegistry(lines, non_int_type=env.NIT[nit])
+        res = regmodel.resolve(model)
+        if col is not None:
+            col.case(("gen", "\n".join(lines), nit), True, sample={"lines": lines, "registry": nit}, cls="generated_registry")
+        names = sorted(res)
+        pre = model["prefixes"]
+        for a in names:
+            for b in names:
+                if res[a][1] != res[b][1]:
+                    continue
+                ratio = res[a][0] / res[b][0]
+                x = _x_for(nit, hash((a, b)) & 7)
+                for rep in range(2):
+                    compare(nit, ureg.convert(x, a, b), x, ratio, True, 12, f"generated convert({x!r},{a!r},{b!r})")
+                    compare(nit, ureg.convert(x, b, a), x, 1 / ratio, True, 12, f"generated convert({x!r},{b!r},{a!r})")
+                if pre:
+                    p = pre[hash(a) % len(pre)]
+                    for sp_ in [p["name"]] + ([p["symbol"]] if p["symbol"] else []) + p["aliases"]:
+                        compare(nit, ureg.convert(x, sp_ + a, b), x, ratio * p["value"], True, 14, f"generated convert({x!r},{sp_ + a!r},{b!r})")
+                        compare(nit, ureg.convert(x, a + "s", sp_ + b), x, ratio / p["value"], True, 14, f"generated convert({x!r},{a + 's'!r},{sp_ + b!r})")
+    finally:
+        logging.disable(logging.NOTSET)
+
+
+def run_generated(task, tier, seed, col):
+    from ..gen import regmodel
+
+    strat = st.builds(lambda m, nit: {"model": m, "nit": nit}, regmodel.models(with_offset=False, with_groups=False, with_systems=False), st.sampled_from(["Fraction", "Fraction", "float", "Decimal"]))
+    hyp_search(col, strat, lambda c: case_generated(c, col), max_examples=60 if tier == "quick" else 1500, seed=seed * 179 + task["shard"], shrink_budget_s=60)
+
+
 # ------------------------------------------------------------------------------------- dispatch
 
 def run_task(task, tier, seed, col):
-    {"pairs": run_pairs, "roots": run_roots, "laws": run_laws, "prefixed": run_prefixed, "compound": run_compound}[task["sub"]](task, tier, seed, col)
+    {"pairs": run_pairs, "roots": run_roots, "laws": run_laws, "prefixed": run_prefixed, "compound": run_compound, "generated": run_generated}[task["sub"]](task, tier, seed, col)
 
 
 def replay(sub, case):
-    return {"pairs": case_pair, "roots": case_root, "laws": case_law, "prefixed": case_prefixed, "compound": case_compound}[sub](case)
+    return {"pairs": case_pair, "roots": case_root, "laws": case_law, "prefixed": case_prefixed, "compound": case_compound, "generated": case_generated}[sub](case)
